@@ -306,3 +306,20 @@ Proof.
   unfold zrange. simpl. replace (Z.of_nat b - Z.of_nat a + 1 - 1) with (Z.of_nat b - Z.of_nat a) by lia.
   rewrite Z.div_1_r. replace (Z.to_nat (Z.of_nat b - Z.of_nat a)) with (b - a)%nat by lia. apply zrange_n_seq.
 Qed.
+
+(* a search loop over consecutive integers stops at the first one satisfying the (non-raising) condition *)
+Lemma py_first_seq (f : Z -> bool) n : forall a,
+  match py_first (map Z.of_nat (seq a n)) (fun x => if f x then Ok (Some x) else Ok None) with
+  | Ok (Some W) => exists k, W = Z.of_nat k /\ (a <= k < a + n)%nat /\ f W = true /\ forall j, (a <= j < k)%nat -> f (Z.of_nat j) = false
+  | Ok None => forall j, (a <= j < a + n)%nat -> f (Z.of_nat j) = false
+  | Raise _ => False
+  end.
+Proof.
+  induction n as [|n IH]; intro a; cbn [seq map py_first]; [intros j Hj; lia|].
+  destruct (f (Z.of_nat a)) eqn:E; cbn [bind].
+  - exists a. split; [reflexivity|]. split; [lia|]. split; [exact E|intros j Hj; lia].
+  - specialize (IH (S a)). destruct (py_first (map Z.of_nat (seq (S a) n)) _) as [[W|]|e]; [| |exact IH].
+    + destruct IH as [k [HW [Hk [Hf Hpre]]]]. exists k. split; [exact HW|]. split; [lia|]. split; [exact Hf|].
+      intros j Hj. destruct (Nat.eq_dec j a) as [->|Hne]; [exact E|apply Hpre; lia].
+    + intros j Hj. destruct (Nat.eq_dec j a) as [->|Hne]; [exact E|apply IH; lia].
+Qed.
